@@ -1,5 +1,6 @@
 """Suites `params` (C09, C10) and `evocmd` (C13, C10): programs of direct record-emitting calls."""
 import itertools
+import math
 import random
 from fractions import Fraction
 
@@ -68,7 +69,9 @@ class ParamsSuite(ProgBaseSuite):
         # ---- A / D fields
         n = 500 if tier == "quick" else 15000
         vols = ["0", "1/8", "25/2", "200", "950", "951", "1000", "7158278", "7158279", "1/1024", "12345/8", "-1", "-1/1024", "nan", "inf", "-inf",
-                {"bad": "none"}, {"bad": "str"}, {"int": 5}, {"int": 0}, {"int": 2000}]
+                {"bad": "none"}, {"bad": "str"}, {"int": 5}, {"int": 0}, {"int": 2000},
+                # just above each worklist max_volume used by wlcfg (closer than the two-decimal rounding of the record)
+                fs(Fraction(950) + Fraction(1, 1024)), fs(Fraction(200) + Fraction(1, 512)), fs(Fraction(1000) + Fraction(3, 1024)), fs(Fraction(25, 2) + Fraction(1, 1024))]
         for _ in range(n):
             kw = {}
             for f in ("liquid_class", "rack_id", "tube_id", "rack_type", "forced_rack_type"):
@@ -98,9 +101,9 @@ class ParamsSuite(ProgBaseSuite):
                   "src_end": rng.choice([8, 8, 4, 16, {"notint": "float:8.0"}]), "dst_label": rtext(rng, semi=0.05), "dst_start": ds, "dst_end": de,
                   "volume": rng.choice(vols[:12] + [{"int": 50}, {"int": 300}]), "exclude": ex}
             if rng.random() < 0.6:
-                op["multi_disp"] = rng.choice([1, 2, 6, 12, 100])
+                op["multi_disp"] = rng.choice([1, 2, 6, 12, 100, 0, -1, -3])
             if rng.random() < 0.4:
-                op["diti_reuse"] = rng.choice([1, 2, 8])
+                op["diti_reuse"] = rng.choice([1, 2, 8, 0, -1])
             if rng.random() < 0.5:
                 op["liquid_class"] = rtext(rng, semi=0.15)
             if rng.random() < 0.4:
@@ -123,6 +126,11 @@ class ParamsSuite(ProgBaseSuite):
                   "multi_disp": rng.choice([1, 2, 6, 12, 100]), "diti_reuse": rng.choice([1, 3]), "liquid_class": rng.choice(LIQS),
                   "direction": rng.choice(["left_to_right", "right_to_left"])}
             ops.append(op)
+        # ---- multi-line comments with the separator in a later line (nothing may be appended before the refusal)
+        for first in ("step one", "a", "µL"):
+            for later in ("bad;line", ";", "x ; y"):
+                ops.append({"op": "comment", "text": first + "\n" + later})
+                ops.append({"op": "comment", "text": first + "\nfine\n" + later + "\nafter"})
         # ---- simple emitters
         for _ in range(n // 2):
             r = rng.random()
@@ -138,12 +146,23 @@ class ParamsSuite(ProgBaseSuite):
             elif r < 0.88:
                 ops.append({"op": "commit"})
             else:
-                ops.append({"op": "set_diti", "i": rng.choice([1, 2, 3, 10])})
+                ops.append({"op": "set_diti", "i": rng.choice([1, 2, 3, 10, 0, -1, -3])})
         rng.shuffle(ops)
         cases = []
         for grp in chunks(ops, 12):
             for dev in ("evo", "fluent"):
                 cases.append({"dev": dev, "wl": wlcfg(random.Random(len(cases) // 2 + seed)), "labware": [], "ops": grp, "family": "params"})
+        # ---- multi-dispense counts at the boundary: max_volume / volume just below an integer (the count must be floored, not
+        # rounded). Integer volumes (no float formatting involved) and a worklist max_volume just below k * volume.
+        for v, kq in ((475, 2), (100, 2), (250, 4), (50, 4), (125, 8), (1, 5)):
+            for e in (13, 16, 20):
+                mvq = Fraction(v * kq) - Fraction(1, 1 << e)
+                ops_b = []
+                for md in (kq, kq + 1, 12, 100, kq - 1):
+                    ops_b.append({"op": "reagent", "src_label": "T", "src_start": 1, "src_end": 8, "dst_label": "P", "dst_start": 1, "dst_end": 12,
+                                  "volume": {"int": v}, "exclude": None, "multi_disp": md, "diti_reuse": 1, "liquid_class": "Water", "direction": "left_to_right"})
+                for dev in ("evo", "fluent"):
+                    cases.append({"dev": dev, "wl": wlcfg(random.Random(e), fs(mvq)), "labware": [], "ops": ops_b, "family": "params"})
         return cases
 
     def nontrivial(self, case, obs):
